@@ -107,7 +107,7 @@ func genC03(seed uint64, run int, tier string) *Plan {
 	}
 	p.Tasks = append(p.Tasks, tp)
 	if r.IntN(4) == 0 && len(p.Faults) == 0 {
-		p.Faults = append(p.Faults, Fault{Kind: "store-before", At: r.IntN(8)})
+		p.Faults = append(p.Faults, Fault{Kind: pick(r, "store-before", "store-slow-fail"), At: r.IntN(8), Ms: int64(1 + r.IntN(1500))})
 	}
 	return p
 }
